@@ -375,7 +375,7 @@ theorem pickRR_inv {s : St} (h : StreamsInv s) (call : Nat) (loc : Loc) (ctx : C
   split
   · exact h
   · simp only
-    have h1 : StreamsInv { s with rr := (s.rr + 1) % 2 ^ 32 } := inv_of_ext h (Ext.of_eq rfl rfl rfl)
+    have h1 : StreamsInv { s with rr := (s.rr + 1) % 2 ^ 64 } := inv_of_ext h (Ext.of_eq rfl rfl rfl)
     split
     · exact finishPick_inv h1 _ _ _ _ _ _ _ _ (by simpa [allIds] using hid)
     · -- a new waiter: same calls and refs, one more (fresh) waiter id
